@@ -133,6 +133,17 @@ CLAIMED = {
         "read simulator gen/reads.py (alignments written directly, indels left-aligned as aligners do); ref/cnref.py",
         "DESIGN.md section 4 C01",
     ),
+    "C07": (
+        "metamorphic runtime monitor on real BAM files: duplication invariance, linear scaling, self-profile = 2.0, depth-independent structure, empty neutral region rejected",
+        "For simulated samples of generated genes (either strand, with/without pseudogene; reads with deletions inside the "
+        "neutral region; custom neutral sub-regions; one Profile object reused) the normalised depth of every region is read "
+        "from the real Coverage after Sample construction for S, S with every read duplicated k times (k in 2..5), S with "
+        "only gene reads multiplied, and the profile sample against its own profile (BAM profile, and the YAML printed by "
+        "`aldy profile` re-loaded for shipped genes); estimate_cn must return the same structures for S and S x k; samples "
+        "without neutral reads must raise.",
+        "read simulator gen/reads.py; relative tolerance 1e-9",
+        "DESIGN.md section 4 C07",
+    ),
 }
 
 NOT_YET = {}
